@@ -20,6 +20,10 @@ CLAIMED = {
    text="Coq theorems for every well-formed p-box of the configured length and every real c: P op c for a map nondecreasing in P keeps every step's image in place, a decreasing map exchanges and reverses the bounds (step k = image of step n-1-k); -P, -(-P)=P, reciprocal of a one-signed p-box (zero in the support raises), any map monotone on a domain containing the support, c-P = -(P-c), P*0 = 0; the Staircase constructor (incl. the lexicographic list comparison of left_right_switch) is part of the model. Tie: bit-exact in-Coq differential run over 14 operations x 4 number kinds x 8 p-box kinds at 200 steps + exact step-image oracle + law checks.",
    note="Trusted: kernel, Reals axioms, hand model of pbox_number_ops/__neg__/reciprocal/_unary_template/Staircase validated by the differential run; numpy exp/log/sqrt/power enter as oracle arrays; zero-straddling P**c is oracle-only.",
    technique="Coq proof over the Staircase-constructor model + in-Coq differential run + exact step-image oracle", ref="5/C06"),
+ "C11": dict(
+   text="Coq theorems for well-formed p-boxes of the configured length: Pbox.env / imp return the pointwise min/max bounds, imp raises exactly when the meet is empty (and cannot be empty when a common member exists); env is the least upper bound and imp the greatest lower bound of the containment order; both are commutative, associative, idempotent; folding env over a family is independent of the order of listing; the support-based `in` test is monotone. Tie: bit-exact in-Coq differential run of the fold over 1..5 converted operands of mixed kinds + exact pointwise oracle on envelope()/imposition(), all orders of listing, idempotence, interval hull, `in`.",
+   note="Trusted: kernel, Reals axioms, hand model of env/imp/Staircase validated by the differential run; conversion of non-p-box operands is the library's own (C07-C09).",
+   technique="Coq lattice proofs over the env/imp model + in-Coq differential run + pointwise oracle", ref="5/C11"),
 }
 NA_REASON = "no check registered yet in this revision of the framework (work in progress, see DESIGN.md section 9)"
 base = json.load(open("/root/.vp/BASELINE.json"))
